@@ -1,6 +1,6 @@
 CONSTANTS P = 43  A = 0  B = 7  Gx = 2  Gy = 12  N = 31
           Stage = "der"
-          SecPfx = {4}  SecXs = {0}  SecYs = {0}  SecLongYs = {0} DerPos <- PosSigT  DerExt <- Sigma8  DerExtLen = 6
+          SecPfx = {4}  SecXs = {0}  SecYs = {0}  SecLongYs = {0} DerPos <- PosSigT  DerExt <- Sigma8  DerExtLen = 3
 SPECIFICATION Spec
 INVARIANT NoBad
 CHECK_DEADLOCK FALSE
